@@ -101,6 +101,14 @@ def _may_go(env, c, height):
         if height < cutoff:
             continue
         if not inc:
+            # offered: the node acts only for forwarded HTLCs, or for its own
+            # payments once the start-up grace period has passed; an HTLC that
+            # is not on our commitment and can be settled is left alone
+            if not (idx in env["fwd"] or env["uptime"] > env["grace"]):
+                continue
+            if h not in sets["l"] and idx not in {x[0] for x in sets["l"] if not x[1]} \
+                    and _known(env, hashid):
+                continue
             return True
         if _known(env, hashid) and h in sets["l"]:
             return True
